@@ -10,6 +10,7 @@ pub mod c08;
 pub mod c09;
 pub mod c10;
 pub mod c11;
+pub mod c12;
 pub mod c13;
 pub mod c14;
 pub mod c15;
@@ -17,7 +18,7 @@ pub mod wf;
 
 pub fn all() -> Vec<&'static dyn Prop> {
     vec![
-        &c01::C01, &c02::C02, &c03::C03, &c04::C04, &c05::C05, &c06::C06, &c08::C08, &c09::C09, &c10::C10, &c11::C11, &c13::C13,
+        &c01::C01, &c02::C02, &c03::C03, &c04::C04, &c05::C05, &c06::C06, &c08::C08, &c09::C09, &c10::C10, &c11::C11, &c12::C12, &c13::C13,
         &c14::C14, &c15::C15,
     ]
 }
